@@ -104,17 +104,19 @@ def invariants(project, obs):
                 bad.append("user record %d of worker %d outside any task span" % (i, root))
                 break
         key = json.dumps(r[2])
+        stack = cur.setdefault(th, [])          # a `blk` unit (body of an attachment block) nests inside its parent's records
         if r[3] == "enter":
-            if cur.get(th) is not None:
-                bad.append("record %d: unit %s entered while %s is open on thread %d" % (i, key, cur[th], th))
+            nested = len(r[2]) >= 2 and r[2][-2] == "blk"
+            if stack and not (nested and stack[-1] == json.dumps(r[2][:-2])):
+                bad.append("record %d: unit %s entered while %s is open on thread %d" % (i, key, stack[-1], th))
                 break
-            cur[th] = key
+            stack.append(key)
         else:
-            if cur.get(th) != key:
-                bad.append("record %d: %s of unit %s but open unit of thread %d is %r" % (i, r[3], key, th, cur.get(th)))
+            if not stack or stack[-1] != key:
+                bad.append("record %d: %s of unit %s but open unit of thread %d is %r" % (i, r[3], key, th, stack[-1] if stack else None))
                 break
             if r[3] == "exit" or r[3].startswith("raise:"):
-                cur[th] = None
+                stack.pop()
     ks = [r[1] for r in tr if r[0] == "handled"]
     if ks != list(range(len(ks))):
         bad.append("handled indices are not 0..n-1: %r" % ks[:10])
@@ -268,9 +270,11 @@ def compact(project):
             elif k == "check":
                 out.append("check-" + ("ok" if a["ok"] else "FAILED"))
             elif k == "raise":
-                out.append("RAISE-" + a["kind"])
+                out.append("RAISE-" + a["kind"] + ("(subclass)" if a.get("sub") else ""))
             elif k == "thread":
                 out.append("thread[%s]" % script(a["script"]))
+            elif k == "attachw":
+                out.append("with-attachment[%s]" % script(a["script"]))
             else:
                 out.append(k)
         return ",".join(out)
